@@ -382,6 +382,9 @@ theorem C11_pitch_loop_checked {α} (A : Arith α) (st st' : State) (id : Nat) (
   unfold addPitch at h
   have hte : tag.isEmpty = false := by cases tag <;> simp_all
   simp only [hte, Bool.false_eq_true, if_false] at h
+  by_cases hg : tag.any outsideStrtod = true
+  · rw [if_pos hg] at h; cases h
+  rw [if_neg hg] at h
   cases h1 : pitchTokens A st.useExt false tag [] (-1) with
   | ok r =>
     obtain ⟨env, lp⟩ := r
